@@ -37,18 +37,18 @@ func (ex *Exec) oblige(st *State, kind, label string, props []string, goal Term,
 	}
 	if goal.IsTrue() {
 		// trivially discharged by constant folding; still counted
-		ex.obls = append(ex.obls, &Obligation{Name: funcKey(ex.fn) + "#" + kind + ":" + label, Func: funcKey(ex.fn), Kind: kind, Label: label, Props: props, Goal: goal, Decls: ex.D, Where: ex.curPos, Src: src,
+		ex.obls = append(ex.obls, &Obligation{Name: ex.oblName() + "#" + kind + ":" + label, Func: ex.oblName(), Kind: kind, Label: label, Props: props, Goal: goal, Decls: ex.D, Where: ex.curPos, Src: src,
 			Result: &SolveResult{Status: "unsat", Backend: "constant-folding"}})
 		return
 	}
 	// goal literally among the assumptions of this path (typically a loop invariant or precondition
 	// conjunct that is needed again): discharged by lookup
 	if ex.assumedLiterally(st, goal) {
-		ex.obls = append(ex.obls, &Obligation{Name: funcKey(ex.fn) + "#" + kind + ":" + label, Func: funcKey(ex.fn), Kind: kind, Label: label, Props: props, Goal: goal, Decls: ex.D, Where: ex.curPos, Src: src,
+		ex.obls = append(ex.obls, &Obligation{Name: ex.oblName() + "#" + kind + ":" + label, Func: ex.oblName(), Kind: kind, Label: label, Props: props, Goal: goal, Decls: ex.D, Where: ex.curPos, Src: src,
 			Result: &SolveResult{Status: "unsat", Backend: "assumption-lookup"}})
 		return
 	}
-	ex.obls = append(ex.obls, &Obligation{Name: funcKey(ex.fn) + "#" + kind + ":" + label, Func: funcKey(ex.fn), Kind: kind, Label: label, Props: props,
+	ex.obls = append(ex.obls, &Obligation{Name: ex.oblName() + "#" + kind + ":" + label, Func: ex.oblName(), Kind: kind, Label: label, Props: props,
 		PC: append([]Term(nil), st.PC...), Goal: goal, Decls: ex.D, Where: ex.curPos, Src: src, Trace: append([]string(nil), st.Trace...), Groups: ex.groups})
 }
 
@@ -64,7 +64,7 @@ func (ex *Exec) canary(st *State, label string) {
 		return
 	}
 	ex.canaryN[label]++
-	ex.obls = append(ex.obls, &Obligation{Name: funcKey(ex.fn) + "#canary:" + label, Func: funcKey(ex.fn), Kind: "canary", Label: label,
+	ex.obls = append(ex.obls, &Obligation{Name: ex.oblName() + "#canary:" + label, Func: ex.oblName(), Kind: "canary", Label: label,
 		PC: append([]Term(nil), st.PC...), Goal: False, Decls: ex.D, Where: ex.curPos, Src: "assert false must fail", Groups: ex.groups})
 }
 
@@ -583,8 +583,13 @@ const smallFunc = 600
 // VerifyFunc runs the symbolic execution of one function: without join merging when the function
 // is small, with it otherwise.
 func VerifyFunc(ctx *Ctx, fn *ssa.Function, fc *FuncContract, safety, canaries bool) (ex *Exec) {
+	return VerifyFuncAs(ctx, fn, fc, safety, canaries, "")
+}
+
+func VerifyFuncAs(ctx *Ctx, fn *ssa.Function, fc *FuncContract, safety, canaries bool, nameAs string) (ex *Exec) {
 	run := func(merge bool) *Exec {
 		ex := NewExec(ctx, fn, fc, safety)
+		ex.nameAs = nameAs
 		ex.canaries = canaries
 		if !merge {
 			ex.noMemo = true
@@ -606,6 +611,15 @@ func VerifyFunc(ctx *Ctx, fn *ssa.Function, fc *FuncContract, safety, canaries b
 		}
 	}
 	return run(true)
+}
+
+// oblName: the name obligations of this run are reported under (the function, or "field<-function" when the body
+// of a function stored in a function-typed field is verified against the contract of that field)
+func (ex *Exec) oblName() string {
+	if ex.nameAs != "" {
+		return ex.nameAs
+	}
+	return funcKey(ex.fn)
 }
 
 func NewExec(ctx *Ctx, fn *ssa.Function, fc *FuncContract, safety bool) *Exec {
